@@ -2304,7 +2304,15 @@ class KmipEngine(object):
                         name
                     )
                     if attribute is None:
-                        continue
+                        # The object does not have a value for the
+                        # attribute, so it cannot match the filter.
+                        self._logger.debug(
+                            "Failed match: "
+                            "the object has no value for the specified "
+                            "attribute ({}).".format(name)
+                        )
+                        add_object = False
+                        break
                     elif name == "Application Specific Information":
                         application_namespace = value.application_namespace
                         application_data = value.application_data
